@@ -8,7 +8,7 @@ KEY_LATE = "aio-late-abort-result"
 def gen_case(rng):
     n = rng.choice([1, 1, 2, 3])
     lines = ["alloc a%d" % k for k in range(n)]
-    tmo = {k: -1 for k in range(n)}
+    tmo = {k: -2 for k in range(n)}       # nng_aio_alloc: NNG_DURATION_DEFAULT
     stopped = {}
     vnow, deadlines = 0, []      # virtual clock of the script and every deadline an operation may have got
     for _ in range(rng.randrange(4, 45)):
@@ -31,9 +31,25 @@ def gen_case(rng):
         elif r < 0.56:
             lines.append("abort a%d %d" % (k, rng.choice([7, 19, 5])))
         elif r < 0.66:
-            t = rng.choice([-1, -1, 0, 1000, 5000])
-            tmo[k] = t
-            lines.append("tmo a%d %d" % (k, t))
+            q = rng.random()
+            if q < 0.60:
+                t = rng.choice([-1, -1, 0, 1000, 5000, -2])
+                tmo[k] = t
+                lines.append("tmo a%d %d" % (k, t))
+            elif q < 0.90:
+                # an absolute expiry (nng_aio_set_expire), relative to the clock of that instant: already past,
+                # before / after the relative timeout
+                d = rng.choice([-50, 300, 700, 2000, 8000])
+                lines.append("expire a%d %d" % (k, d))
+                if d > 0:
+                    deadlines.append(vnow + d)
+            elif q < 0.95:
+                lines.append("expnever a%d" % k)
+            else:
+                d = rng.choice([1000, 5000, -1])
+                lines.append("norm a%d %d" % (k, d))     # nni_aio_normalize_timeout: only a DEFAULT timeout changes
+                if tmo[k] == -2:
+                    tmo[k] = d
         elif r < 0.74:
             # (a sleep whose effective duration is 0 ends after ~1 ms of real time, which the virtual
             #  clock does not control: not generated)
@@ -79,6 +95,8 @@ def oracle(case, out):
     sub, cbn, pending_fin, stopped = {}, {}, {}, set()
     last_begin_ok = {}
     vnow, tmo, deadline, abort5 = 0, {}, {}, set()
+    INF = float("inf")
+    absx = {}      # aio -> (absolute expiry pending for the next operation | INF, set while an operation was in flight?)
     for i, line in enumerate(case):
         t = line.split()
         m = OBSL.match(out[i]) if i < len(out) else None
@@ -91,9 +109,17 @@ def oracle(case, out):
         if t[0] == "advance":
             vnow += int(t[1])
         if t[0] == "alloc":
-            tmo[k] = -1
+            tmo[k] = -2
         if t[0] == "tmo" and pfx == "ok":
             tmo[k] = int(t[2])
+            absx.pop(k, None)
+        if t[0] == "norm" and pfx == "ok" and tmo.get(k, -1) == -2:
+            tmo[k] = int(t[2])
+        if t[0] in ("expire", "expnever") and pfx == "ok":
+            # Core/AioDeadline.sp_step: applies to the next operation started on the aio (unless a timeout is set,
+            # or an operation is started or completed, in between).  Set while an operation is in flight, whether it
+            # survives depends on how that operation ends: then both readings are allowed below.
+            absx[k] = (INF if t[0] == "expnever" else vnow + int(t[2]), sub.get(k, 0) != cbn.get(k, 0))
         if t[0] == "abort" and int(t[2]) == 5:
             abort5.add(k)
         if t[0] in ("begin", "sleep") and pfx != "busy" and pfx != "noaio":
@@ -102,7 +128,12 @@ def oracle(case, out):
             if t[0] == "sleep":
                 ms = int(t[2])
                 d = ms if (d < 0 or (0 <= ms < d)) else d
-            deadline[k] = None if d < 0 else vnow + d
+            rel = INF if d < 0 else vnow + d
+            if k in absx and t[0] == "begin":
+                a_t, unsure = absx[k]
+                rel = min(a_t, rel) if unsure else a_t
+            absx.pop(k, None)
+            deadline[k] = None if rel == INF else rel
             sub[k] = sub.get(k, 0) + 1
             if t[0] == "begin":
                 last_begin_ok[k] = pfx == "started=1"
